@@ -7,7 +7,16 @@ CFG = dict(
     modules=["PolyVerif.Props.C12"],
     streams=[dict(name="c12", n=dict(quick=150, thorough=4000)),
              dict(name="c12file", n=dict(quick=20, thorough=400))],
-    trusted=T_COMMON + [],
-    residue=[],
-    assumptions=[],
+    trusted=T_COMMON + [
+        "encoding/json (sorted object keys, float/string round trip), jbtf v0.2.0 container layout: equal schemas give equal bytes",
+        "sort.Slice returns a permutation sorted w.r.t. the comparator when that is a strict total order on the elements (sorted_unique then pins the result)",
+        "go:linkname access to graph.dependencyNameLess and reflection access to App.graphInstance in the harness",
+        "reflect-based type table (graph.BuildNodeTypeSchema) sent with each case"],
+    residue=["byte identity follows from schema identity (encode_idempotent) through encoding/json + jbtf: observed (bytes_identical), not proved",
+             "per-type parameter payload law fromJ(toJ v) = v is a hypothesis (EnvOK.law); spot-checked by c12.holds.param_law for the nine Value[T] types; Image (PNG) payloads not exercised",
+             "artifact equality is observed (same_artifacts on deterministic text producers / repo graph file), not stated in Lean (needs C11 read_fresh)",
+             "File/Image payload that is not the last buffer view: known finding C12-file-param-not-last (file_payload_concatenated); decode_encode is proved under FilePayloadLast",
+             "non-ASCII port names (EqualFold/ToLower modelled for ASCII); termination of the Node-k search (fuel); decode error classes on malformed files; cyclic graphs and deleting a depended-on node are outside the harness"],
+    assumptions=["a Go slice has fewer than 2^63 elements (natural_order_ok bound)",
+                 "input port names of a node type are Go field names: no dot, distinct up to ASCII case (checked on every registered type by c12.holds.ports_distinct)"],
 )
